@@ -710,6 +710,10 @@ func (v *Verifier) contractMods(con *Contract, pkg *types.Package) *modSet {
 	}
 	st := v.curRoot.entrySt
 	for _, m := range v.evalModifies(v.curRoot, con, vars, st, pkg) {
+		if m.all {
+			ms.all = true
+			continue
+		}
 		ms.add(m.comp, m.sort)
 	}
 	// do not cache across functions: ctx differs but the component names are stable
